@@ -3,6 +3,8 @@
 package entrypoint
 
 import (
+	"compress/gzip"
+	"compress/zlib"
 	"errors"
 	"io"
 	"io/fs"
@@ -10,6 +12,7 @@ import (
 	"time"
 
 	"github.com/johnkerl/miller/v6/pkg/cli"
+	"github.com/johnkerl/miller/v6/pkg/lib"
 	"github.com/johnkerl/miller/v6/pkg/transformers"
 )
 
@@ -112,8 +115,40 @@ func stubStream(fileNames []string, options *cli.TOptions, trs []transformers.Re
 		return errors.New("data error")
 	}
 	fsStep("write2")
-	fsFiles[fsTemp] = "new:" + fileNames[0]
+	if stubCompressed {
+		// a recompressor sits between the stream and the temp file: the document is complete only
+		// once the compressor's Close has written its last block and trailer
+		fsFiles[fsTemp] = "new-without-trailer:" + fileNames[0]
+	} else {
+		fsFiles[fsTemp] = "new:" + fileNames[0]
+	}
 	return nil
+}
+
+// contract of gzip/zlib Writer.Close: one final write of the last block and trailer to the
+// underlying handle (the temp file), whose failure is what Close returns
+var stubCompressed bool
+
+func stubCompressorClose() error {
+	fsStep("compressor-close")
+	if fail("compressor_close") {
+		return errors.New("no space left on device")
+	}
+	if len(fsFiles[fsTemp]) > len("new-without-trailer:") && fsFiles[fsTemp][:len("new-without-trailer:")] == "new-without-trailer:" {
+		fsFiles[fsTemp] = "new:" + fsFiles[fsTemp][len("new-without-trailer:"):]
+	}
+	return nil
+}
+func stubGzipClose(z *gzip.Writer) error { return stubCompressorClose() }
+func stubZlibClose(z *zlib.Writer) error { return stubCompressorClose() }
+
+var stubEncoding lib.TFileInputEncoding
+
+func stubParseWithEncoding(args []string) (*cli.TOptions, []transformers.RecordTransformer, error) {
+	parseCalls++
+	o := &cli.TOptions{}
+	o.ReaderOptions.FileInputEncoding = stubEncoding
+	return o, nil, nil
 }
 var parseCalls int
 var chmodFailed bool
@@ -141,13 +176,26 @@ func VerifC19_inplace() {
 	verifReplace("os.Rename", stubRename)
 	verifReplace("os.Chmod", stubChmod)
 	verifReplace("github.com/johnkerl/miller/v6/pkg/stream.Stream", stubStream)
-	verifReplace("github.com/johnkerl/miller/v6/pkg/climain.ParseCommandLine", stubParse)
+	verifReplace("github.com/johnkerl/miller/v6/pkg/climain.ParseCommandLine", stubParseWithEncoding)
+	verifReplace("(*compress/gzip.Writer).Close", stubGzipClose)
+	verifReplace("(*compress/zlib.Writer).Close", stubZlibClose)
 
-	fsFiles = map[string]string{"d/a": "orig:d/a", "d/b": "orig:d/b"}
+	// how the input is encoded: plain; gzip by flag; zlib by flag; gzip by file-name suffix
+	fa, fb := "d/a", "d/b"
+	stubEncoding, stubCompressed = lib.FileInputEncodingDefault, false
+	switch verifChoice("input_encoding", 4) {
+	case 1:
+		stubEncoding, stubCompressed = lib.FileInputEncodingGzip, true
+	case 2:
+		stubEncoding, stubCompressed = lib.FileInputEncodingZlib, true
+	case 3:
+		fa, fb, stubCompressed = "d/a.gz", "d/b.gz", true
+	}
+	fsFiles = map[string]string{fa: "orig:" + fa, fb: "orig:" + fb}
 	fsTemp, fsTempOpen, fsOps, parseCalls, chmodFailed = "", false, 0, 0, false
 	fsCrash = verifInt64("crash_after_ops")
-	verifAssume(fsCrash >= 0 && fsCrash <= 20)
-	opts := &cli.TOptions{FileNames: []string{"d/a", "d/b"}}
+	verifAssume(fsCrash >= 0 && fsCrash <= 24)
+	opts := &cli.TOptions{FileNames: []string{fa, fb}}
 
 	err := processFilesInPlace(opts)
 
@@ -155,12 +203,12 @@ func VerifC19_inplace() {
 	if err != nil {
 		_, tempLeft := fsFiles[fsTemp]
 		verifAssert(fsTemp == "" || !tempLeft || chmodFailed, "C19/no-temp-left-on-error-return")
-		if fsFiles["d/a"] == "orig:d/a" {
-			verifAssert(fsFiles["d/b"] == "orig:d/b", "C19/later-files-untouched")
+		if fsFiles[fa] == "orig:"+fa {
+			verifAssert(fsFiles[fb] == "orig:"+fb, "C19/later-files-untouched")
 		}
 		verifReach("C19/error-return")
 	} else {
-		verifAssert(fsFiles["d/a"] == "new:d/a" && fsFiles["d/b"] == "new:d/b", "C19/success-all-new")
+		verifAssert(fsFiles[fa] == "new:"+fa && fsFiles[fb] == "new:"+fb, "C19/success-all-new")
 		_, tempLeft := fsFiles[fsTemp]
 		verifAssert(!tempLeft, "C19/no-temp-left-on-success")
 		verifAssert(parseCalls == 2, "C19/fresh-options-per-file")
@@ -174,6 +222,7 @@ func stubParseWithPrepipe(args []string) (*cli.TOptions, []transformers.RecordTr
 	parseCalls++
 	o := &cli.TOptions{}
 	o.ReaderOptions.Prepipe = stubPrepipe
+	o.ReaderOptions.FileInputEncoding = stubEncoding
 	return o, nil, nil
 }
 
@@ -192,12 +241,16 @@ func VerifC19_refusals() {
 	verifReplace("github.com/johnkerl/miller/v6/pkg/stream.Stream", stubStream)
 	verifReplace("github.com/johnkerl/miller/v6/pkg/climain.ParseCommandLine", stubParseWithPrepipe)
 
-	names := []string{"http://h/a", "https://h/a", "file://d/a", "d/a.bz2", "d/a"}
+	// URLs, a .bz2 name, a prepipe, and bzip2 announced by the --bz2in flag on an ordinary name
+	names := []string{"http://h/a", "https://h/a", "file://d/a", "d/a.bz2", "d/a", "d/a"}
 	which := verifChoice("input", len(names))
 	name := names[which]
-	stubPrepipe = ""
+	stubPrepipe, stubEncoding, stubCompressed = "", lib.FileInputEncodingDefault, false
 	if which == 4 {
 		stubPrepipe = "gunzip <"
+	}
+	if which == 5 {
+		stubEncoding = lib.FileInputEncodingBzip2
 	}
 	fsFiles = map[string]string{name: "orig:" + name, "d/b": "orig:d/b"}
 	fsTemp, fsTempOpen, fsOps, parseCalls, chmodFailed = "", false, 0, 0, false
